@@ -1,11 +1,11 @@
-"""Helpers shared by checks C05 / C08 / C19.
+"""Helpers shared by checks C05 / C19.
 
 go2coq is one Go package to which every builder adds files; a compile error in somebody else's file must not
 take these checks down, so they build the translator from an explicit file list (the shared core + their own files)."""
 import os
 
 CORE = ["main.go", "leaf.go", "c15.go"]
-OWN = ["adapter.go", "locks.go", "loaddiff.go"]
+OWN = ["adapter.go", "loaddiff.go"]
 
 
 def go2coq_bin(c):
